@@ -58,6 +58,9 @@ pub struct RMsg {
     pub outcomes: Vec<String>,
 }
 
+/// wall-clock backstop per job during the search (normal jobs take 0.3-50 ms); suspects are re-run alone with 200 s
+pub const WALL_SEARCH_S: u64 = 5;
+
 pub struct Worker {
     corpus: Vec<Program>,
     env: Arc<WorkerEnv>,
@@ -81,7 +84,7 @@ impl Worker {
             refs: BTreeMap::new(),
             src: SrcLines::new(),
             sent: BTreeMap::new(),
-            wall: Duration::from_secs(20),
+            wall: Duration::from_secs(WALL_SEARCH_S),
         }
     }
 
@@ -99,8 +102,8 @@ impl Worker {
                 tag: tag.to_string(),
                 prop: w.prop.clone(),
                 class: "HANGWALL".into(),
-                key: "HANG|wall".into(),
-                detail: format!("thread {} job {} exceeded the wall-clock backstop of {:?} per job", t, j, self.wall),
+                key: format!("HANG|wall|{}", crate::job::last_site_of(t)),
+                detail: format!("thread {} job {} exceeded the wall-clock backstop of {:?} per job; last tick site {}", t, j, self.wall, crate::job::last_site_of(t)),
                 worlds: vec![w.clone()],
                 job_label: w.jobs.get(j).map(|x| x.label.clone()).unwrap_or_default(),
                 job_key: w.jobs.get(j).map(|x| x.key()).unwrap_or(0),
@@ -339,7 +342,7 @@ impl Worker {
                         }
                     }
                     if digests {
-                        rm.digests.push((tag.clone(), dg));
+                        self.say(&format!("D {} {}", tag, dg));
                     }
                     self.check_c05_world(&tag, &w, &r, &mut rm);
                     if i == from && rm.samples.len() < 2 {
@@ -377,7 +380,7 @@ impl Worker {
                     let r = self.run(&tag, &w);
                     let dg = self.world_stats(&w, &r, &mut rm);
                     if digests {
-                        rm.digests.push((tag.clone(), dg));
+                        self.say(&format!("D {} {}", tag, dg));
                     }
                     self.check_c16_world(&tag, &w, &r, &mut rm);
                     if i == from {
@@ -430,7 +433,7 @@ impl Worker {
                     }
                 }
                 self.sent.clear();
-                self.wall = Duration::from_secs(20);
+                self.wall = Duration::from_secs(WALL_SEARCH_S);
             }
         }
         let line = format!("R {}", serde_json::to_string(&rm).unwrap());
